@@ -1,5 +1,6 @@
 #!/bin/bash
 # Builds /repo in /repo/_build (the baseline build dir) and runs the pinned suite without valgrind.
 R=${1:-/repo}
-cmake -S $R -B $R/_build >/dev/null 2>&1 && cmake --build $R/_build -j16 2>&1 | grep -E "error|warning: " | head
+cmake -S $R -B $R/_build >/dev/null 2>&1 || { echo "CMAKE CONFIGURE FAILED"; exit 1; }
+if ! cmake --build $R/_build -j16 > /tmp/repo_build.log 2>&1; then echo "BUILD FAILED"; grep -E "error" /tmp/repo_build.log | head -10; exit 1; fi
 cd $R/_build && USE_VALGRIND=0 ctest -j16 --timeout 900 2>&1 | tail -4
